@@ -1,4 +1,5 @@
 import Bw.Lookup
+import Bw.Lemmas.Flags
 /-! # C16 — grammar is chosen by file name; unknown names are skipped
 
 `Lookup.table` is regenerated from `language_parsers()` on every run, so the obligations below are
@@ -76,5 +77,25 @@ theorem shortest_suffix_wins (t : List (Text × String)) (extra : List (Text × 
       simp only [List.cons_append, firstSome, hp x (by simp)]
       exact ih (fun s hs' => hp s (by simp [hs']))
   simp only [lookupIn, hn, hs, this pre hpre]
+
+/-! ### `-E KEY=VALUE` (`src/flags.rs`, model `Bw.Flags`) -/
+
+/-- a mapping onto something that is not a registered suffix rejects the command line before any file is read -/
+theorem E_unsupported_rejected (rawE en dis : List Text) (s k v : Text) (hs : s ∈ rawE)
+    (hp : Flags.parseExtension s = .ok (k, v)) (hv : v ∉ Lookup.table.map (·.1)) :
+    ∃ e, Flags.startup rawE en dis = .error e := Flags.startup_err_of_unsupported rawE en dis s k v hs hp hv
+
+/-- `KEY=VALUE` is cut at its first `=`, both sides trimmed; without `=` it is rejected -/
+theorem E_split (k v : Text) (hk : '=' ∉ k) : Flags.parseExtension (k ++ '=' :: v) = .ok (trim k, trim v) := by
+  simp only [Flags.parseExtension, Flags.splitOnceEq_spec k v hk]
+
+theorem E_without_equals_rejected (s : Text) (h : '=' ∉ s) : Flags.parseExtension s = .error .badExtensionSyntax := by
+  simp only [Flags.parseExtension, (Flags.splitOnceEq_none_iff s).2 h]
+
+/-- a repeated key keeps its last mapping -/
+theorem E_last_wins (exts : List (Text × Text)) (e : Text × Text) (k : Text) :
+    ((Flags.extensionsMap (exts ++ [e])).find? (fun x => x.1 = k)).map (·.2) =
+      if e.1 = k then some e.2 else ((Flags.extensionsMap exts).find? (fun x => x.1 = k)).map (·.2) :=
+  Flags.find_extensionsMap_append exts e k
 
 end Bw.Props.C16
